@@ -39,6 +39,26 @@
 (*                checks see the body (the block was attached to the       *)
 (*                message before the modifier ran).                        *)
 (*                                                                         *)
+(* Three more dimensions (constants EarlyOn, DupOn, Dmarcs/Vias; see also   *)
+(* CheckRunnerObs.tla):                                                     *)
+(*  early   the connection-time entry RunEarlyChecks: before Start the      *)
+(*          driver issues command "early"; the checks of the global block   *)
+(*          that have the module.EarlyCheck hook (cfg.early, any subset of  *)
+(*          them, so a hooked check is listed before and after plain ones)  *)
+(*          run concurrently (ECallDone) and any refusal (cfg.everd)        *)
+(*          refuses the connection: no message follows.                     *)
+(*  dup     a RCPT command may repeat an address given before (cfg.dupof[i] *)
+(*          = position of its first occurrence, 0 = new address): checks    *)
+(*          that have seen the address are not asked again, the targets are *)
+(*          told again, and a recipient refused by the verdict of its own   *)
+(*          check group stays refused (k.rejd).                             *)
+(*  dmarc   the action of the published DMARC policy is one of off / none / *)
+(*          quar / rej; "rej" refuses the body in applyResults, after every *)
+(*          body check has passed, on both body paths.  cfg.dmvia (how the  *)
+(*          policy is published: p / sp, From domain / organizational       *)
+(*          domain) is an input the design is independent of: it is chosen  *)
+(*          here only so that TLC enumerates it for the replay.             *)
+(*                                                                         *)
 (* Deviations of the code from this design are named and switched by Devs: *)
 (*  "NABody"            BodyNonAtomic (per-recipient body path) skips the  *)
 (*                      destination-scope body checks and applyResults     *)
@@ -49,6 +69,11 @@
 (*  "ReplayRejectLeaks" a reject returned for a replayed recipient (one    *)
 (*                      answered earlier) fails the command being handled, *)
 (*                      i.e. refuses a different recipient.                *)
+(*  "DupAfterReject"    a recipient refused by the verdict of a check that  *)
+(*                      keeps its state (global / source block, or a block  *)
+(*                      visited before) is accepted when the RCPT command   *)
+(*                      is repeated: the check has "seen" the address and   *)
+(*                      is not asked again, and its answer is forgotten.    *)
 (***************************************************************************)
 EXTENDS CheckRunnerObs, TLC, SequencesExt, FiniteSetsExt, Json
 
@@ -56,7 +81,10 @@ CONSTANTS NChecks,      \* number of checks (1..4); names c1.. in default comple
           MaxRcpts,     \* 1..3
           MaxNonNone,   \* at most this many non-"none" cells in the verdict table
           MaxScopes,    \* a check is referenced from at most this many scopes
-          Dmarcs,       \* subset of {"off", "quar"}
+          Dmarcs,       \* subset of {"off", "none", "quar", "rej"}: action of the published DMARC policy
+          Vias,         \* how that policy is published (opaque to the design; replayed by the harness)
+          EarlyOn,      \* TRUE: the connection-time entry RunEarlyChecks is driven before Start
+          DupOn,        \* TRUE: a RCPT command may repeat an earlier address
           ExtraV,       \* subset of Combined: raw Reject && Quarantine results in the verdict alphabet
           Only1On,      \* TRUE: rcpt-stage verdicts may apply to recipient r1 only
           WithRemote,   \* TRUE: include the remote-target scenario
@@ -110,13 +138,15 @@ Routes == {rt \in UNION {[1..n -> DBlocks] : n \in 1..MaxRcpts} : rt[1] = "D1"}
 BaseCfg(p, kd, fr) ==
   [place |-> [c \in Checks |-> p[Idx(c)]],
    verd  |-> [c \in Checks |-> [s \in Stages |-> "?"]],
-   only1 |-> {}, route |-> <<>>, path |-> "?", dmarc |-> "?", kind |-> kd,
+   only1 |-> {}, route |-> <<>>, dupof |-> <<>>, path |-> "?", dmarc |-> "?", dmvia |-> "?", kind |-> kd,
+   early |-> {}, everd |-> {}, eon |-> FALSE,
    mod |-> IF ModOn /\ kd = "pipe" THEN "?" ELSE "off", mfail |-> {}, from |-> fr, nafin |-> "?",
    nn |-> 0, cells |-> {}, fixed |-> FALSE]
 
 RemoteCfg ==
   [place |-> [c \in Checks |-> {}], verd |-> [c \in Checks |-> [s \in Stages |-> "none"]],
-   only1 |-> {}, route |-> <<"D1">>, path |-> "atomic", dmarc |-> "off", kind |-> "remote",
+   only1 |-> {}, route |-> <<"D1">>, dupof |-> <<0>>, path |-> "atomic", dmarc |-> "off", dmvia |-> "-", kind |-> "remote",
+   early |-> {}, everd |-> {}, eon |-> FALSE,
    mod |-> "off", mfail |-> {}, from |-> "addr", nafin |-> "commit", nn |-> 0, cells |-> {}, fixed |-> TRUE]
 
 Idle == [st |-> "idle", op |-> "", r |-> "", items |-> <<>>, todo |-> <<>>, pend |-> {},
@@ -124,9 +154,9 @@ Idle == [st |-> "idle", op |-> "", r |-> "", items |-> <<>>, todo |-> <<>>, pend
 
 InitWith(c) ==
   /\ cfg = c
-  /\ drv = [ph |-> IF c.kind = "remote" THEN "remote" ELSE IF Lazy THEN "start" ELSE "cfgS",
+  /\ drv = [ph |-> IF c.kind = "remote" THEN "remote" ELSE IF c.eon THEN "early" ELSE IF Lazy THEN "start" ELSE "cfgS",
             i |-> 1, acc |-> {}, fin |-> ""]
-  /\ k = [reg |-> {}, seenR |-> [x \in Checks |-> {}], checked |-> <<>>, mq |-> FALSE, bodySeen |-> {}]
+  /\ k = [reg |-> {}, seenR |-> [x \in Checks |-> {}], checked |-> <<>>, mq |-> FALSE, bodySeen |-> {}, rejd |-> {}]
   /\ metaQ = (c.kind = "remote")
   /\ used = {}
   /\ tg = [t \in Targets |-> "none"]
@@ -135,8 +165,13 @@ InitWith(c) ==
   /\ obs = ObsInit(Checks)
   /\ hist = <<>>
 
+\* which checks of the global block have the connection-time hook, which of them refuse the connection
+WithEarly(c) == IF ~EarlyOn THEN {c}
+                ELSE UNION {{[c EXCEPT !.early = ea, !.everd = er, !.eon = TRUE] : er \in SUBSET ea} :
+                            ea \in SUBSET ChecksIn(c, "G")}
+
 Init ==
-  \/ \E p \in PlaceSeqs : \E kd \in Kinds : \E fr \in Froms : InitWith(BaseCfg(p, kd, fr))
+  \/ \E p \in PlaceSeqs : \E kd \in Kinds : \E fr \in Froms : \E c \in WithEarly(BaseCfg(p, kd, fr)) : InitWith(c)
   \/ WithRemote /\ InitWith(RemoteCfg)
 
 (* up-front choice of the verdict table (~Lazy): which cells are not "none", then their values *)
@@ -228,13 +263,16 @@ AfterChecks(kk, dv, op, r, cf) ==
     [] op = "body" ->
          \* applyResults: quarantine flag and DMARC action
          \E dm \in (IF cf.dmarc = "?" THEN Dmarcs ELSE {cf.dmarc}) :
+         \E via \in (IF cf.dmvia # "?" THEN {cf.dmvia} ELSE IF dm = "off" THEN {"-"} ELSE Vias) :
          LET skip == cf.path = "na" /\ "NABody" \in Devs
              q1   == kk.mq \/ dm = "quar"
-         IN /\ k' = kk /\ cfg' = [cf EXCEPT !.dmarc = dm]
+             drej == dm = "rej" /\ ~skip       \* the policy refuses the message: no target is handed the body
+         IN /\ k' = kk /\ cfg' = [cf EXCEPT !.dmarc = dm, !.dmvia = via]
             /\ metaQ' = IF skip THEN metaQ ELSE (metaQ \/ q1)
-            /\ devs' = dv \cup (IF skip /\ q1 THEN {"NABody"} ELSE {})
-            /\ run' = [Idle EXCEPT !.st = "tgt", !.op = op, !.r = r,
-                                   !.tq = {[t |-> t, op |-> BodyOp(cf, t)] : t \in OpenTargets}]
+            /\ devs' = dv \cup (IF skip /\ (q1 \/ dm = "rej") THEN {"NABody"} ELSE {})
+            /\ run' = IF drej THEN [Idle EXCEPT !.st = "ret", !.op = op, !.r = r, !.res = "err"]
+                      ELSE [Idle EXCEPT !.st = "tgt", !.op = op, !.r = r,
+                                        !.tq = {[t |-> t, op |-> BodyOp(cf, t)] : t \in OpenTargets}]
             /\ UNCHANGED used
 
 Proceed(kk, items, todo, dv, op, r, cf) ==
@@ -249,50 +287,89 @@ Proceed(kk, items, todo, dv, op, r, cf) ==
 (* ------------------------------------------------------------------------ *)
 (* the driver issues the next command                                       *)
 (* ------------------------------------------------------------------------ *)
-NextOp == CASE drv.ph = "start" -> "start" [] drv.ph = "rcpt" -> "rcpt"
+NextOp == CASE drv.ph = "early" -> "early" [] drv.ph = "start" -> "start" [] drv.ph = "rcpt" -> "rcpt"
             [] drv.ph = "body" -> "body" [] OTHER -> drv.fin
-NextR  == IF drv.ph = "rcpt" THEN RcptSeq[drv.i] ELSE ""
+\* recipient ids are per address: position i names a new address (RcptSeq[i]) or repeats an earlier one
+RcptAt(i, d) == IF d = 0 THEN RcptSeq[i] ELSE RcptSeq[d]
+\* (for positions the configuration has fixed already; a new position is chosen in Cmd)
+NextR  == IF drv.ph = "rcpt" /\ drv.i <= Len(cfg.dupof) THEN RcptAt(drv.i, cfg.dupof[drv.i]) ELSE ""
+\* positions a new RCPT command may repeat: first occurrences of earlier addresses
+DupChoices == IF DupOn THEN {0} \cup {j \in 1..(drv.i - 1) : cfg.dupof[j] = 0} ELSE {0}
 
 \* Body visits the destination blocks in map order
 DestOrders == IF used = {"D1", "D2"} THEN (IF Gen THEN {<<"D1", "D2">>} ELSE {<<"D1", "D2">>, <<"D2", "D1">>})
               ELSE IF used = {"D1"} THEN {<<"D1">>} ELSE IF used = {"D2"} THEN {<<"D2">>} ELSE {<<>>}
 
+First(S) == CHOOSE c \in S : \A d \in S : Idx(c) <= Idx(d)
+
+CmdObs(op, r) == /\ obs' = ObsCmd(obs, cfg, op, r)
+                 /\ hist' = H([a |-> "cmd", op |-> op, r |-> r])
+
 Cmd ==
-  /\ run.st = "idle" /\ drv.ph \in {"start", "rcpt", "body", "fin"}
+  /\ run.st = "idle" /\ drv.ph \in {"early", "start", "rcpt", "body", "fin"}
   /\ LET op == NextOp
-         r  == NextR
-     IN /\ obs' = ObsCmd(obs, cfg, op, r)
-        /\ hist' = H([a |-> "cmd", op |-> op, r |-> r])
-        /\ CASE op \in {"commit", "abort"} ->
+     IN CASE op \in {"commit", "abort"} ->
                 \* Commit after the per-recipient body was refused for everybody by a check: the pipeline
                 \* aborts the target deliveries instead (nothing is committed after a refusal)
+                /\ CmdObs(op, "")
                 /\ LET top == IF op = "commit" /\ obs.dead THEN "abort" ELSE op IN
                    run' = IF OpenTargets = {} THEN [Idle EXCEPT !.st = "ret", !.op = op, !.res = "ok"]
                           ELSE [Idle EXCEPT !.st = "tgt", !.op = op, !.tq = {[t |-> t, op |-> top] : t \in OpenTargets}]
                 /\ UNCHANGED <<cfg, k, devs, used, metaQ>>
-             [] op = "start" -> Proceed(k, <<>>, <<"G", "S">>, devs, op, r, cfg)
+             [] op = "early" ->
+                \* RunEarlyChecks: the hooked checks of the global block, all at once
+                /\ CmdObs(op, "")
+                /\ run' = IF cfg.early = {} THEN [Idle EXCEPT !.st = "ret", !.op = op, !.res = "ok"]
+                          ELSE [Idle EXCEPT !.st = "egrp", !.op = op, !.pend = cfg.early]
+                /\ UNCHANGED <<cfg, k, devs, used, metaQ>>
+             [] op = "start" -> CmdObs(op, "") /\ Proceed(k, <<>>, <<"G", "S">>, devs, op, "", cfg)
              [] op = "rcpt"  ->
-                \* the block the recipient is routed to (destination blocks are interchangeable:
-                \* the first recipient goes to D1)
+                \* the address (new, or a repetition of an earlier one) and the block it is routed to
+                \* (destination blocks are interchangeable: the first recipient goes to D1)
+                \E d \in (IF drv.i <= Len(cfg.route) THEN {cfg.dupof[drv.i]} ELSE DupChoices) :
                 \E b \in (IF drv.i <= Len(cfg.route) THEN {cfg.route[drv.i]}
+                          ELSE IF d # 0 THEN {cfg.route[d]}
                           ELSE IF drv.i = 1 \/ cfg.kind \in {"rpipe", "qpipe"} THEN {"D1"} ELSE DBlocks) :
-                  LET cf == IF drv.i <= Len(cfg.route) THEN cfg ELSE [cfg EXCEPT !.route = Append(@, b)]
-                  IN Proceed(k, <<>>, <<"G", "S", b>>, devs, op, r, cf)
+                  LET cf == IF drv.i <= Len(cfg.route) THEN cfg
+                            ELSE [cfg EXCEPT !.route = Append(@, b), !.dupof = Append(@, d)]
+                      r  == RcptAt(drv.i, d)
+                  IN /\ CmdObs(op, r)
+                     /\ IF r \in k.rejd /\ "DupAfterReject" \notin Devs
+                        THEN \* a check refused this recipient: the answer stands
+                             /\ run' = [Idle EXCEPT !.st = "ret", !.op = op, !.r = r, !.res = "err"]
+                             /\ cfg' = cf
+                             /\ UNCHANGED <<k, devs, used, metaQ>>
+                        ELSE Proceed(k, <<>>, <<"G", "S", b>>,
+                                     devs \cup (IF r \in k.rejd THEN {"DupAfterReject"} ELSE {}), op, r, cf)
              [] op = "body"  ->
-                \E pth \in (IF cfg.path = "?" THEN {"atomic", "na"} ELSE {cfg.path}) :
+                /\ CmdObs(op, "")
+                /\ \E pth \in (IF cfg.path = "?" THEN {"atomic", "na"} ELSE {cfg.path}) :
                   LET cf   == [cfg EXCEPT !.path = pth]
                       skip == pth = "na" /\ "NABody" \in Devs
                       dv   == devs \cup (IF skip /\ \E b \in used : ChecksIn(cfg, b) # {}
                                          THEN {"NABody"} ELSE {})
                   IN \E ord \in DestOrders :
-                       Proceed(k, <<>>, <<"G", "S">> \o (IF skip THEN <<>> ELSE ord), dv, op, r, cf)
+                       Proceed(k, <<>>, <<"G", "S">> \o (IF skip THEN <<>> ELSE ord), dv, op, "", cf)
   /\ UNCHANGED <<drv, tg, delays>>
+
+(* one of the connection-time hooks (RunEarlyChecks) finishes *)
+ECallDone(c) ==
+  /\ run.st = "egrp" /\ c \in run.pend
+  /\ IF Gen /\ c # First(run.pend)
+     THEN delays < MaxDelay /\ delays' = delays + 1
+     ELSE UNCHANGED delays
+  /\ LET v    == IF c \in cfg.everd THEN "reject" ELSE "none"
+         p1   == run.pend \ {c}
+         rej1 == run.rej \/ v = "reject"
+     IN /\ obs' = ObsCall(obs, cfg, c, "early", "", v, obs.n)
+        /\ hist' = H([a |-> "call", c |-> c, stage |-> "early", arg |-> ""])
+        /\ run' = IF p1 # {} THEN [run EXCEPT !.pend = p1, !.rej = rej1]
+                  ELSE [Idle EXCEPT !.st = "ret", !.op = "early", !.res = IF rej1 THEN "err" ELSE "ok"]
+  /\ UNCHANGED <<cfg, drv, k, metaQ, used, tg, devs>>
 
 (* ------------------------------------------------------------------------ *)
 (* one of the parallel check calls of the current group finishes            *)
 (* ------------------------------------------------------------------------ *)
-First(S) == CHOOSE c \in S : \A d \in S : Idx(c) <= Idx(d)
-
 CallDone(c) ==
   /\ run.st = "grp" /\ c \in run.pend
   /\ IF Gen /\ c # First(run.pend)
@@ -332,7 +409,12 @@ CallDone(c) ==
                 \* checkStates had finished (operation group)
                 /\ k' = [k1 EXCEPT !.seenR = IF g.isop THEN @
                                              ELSE [x \in Checks |-> IF x \in g.new THEN {} ELSE @[x]],
-                                   !.checked = IF g.isop /\ g.stage = "rcpt" THEN AddChecked(@, g.arg) ELSE @]
+                                   !.checked = IF g.isop /\ g.stage = "rcpt" THEN AddChecked(@, g.arg) ELSE @,
+                                   \* a check refused the recipient being handled: states that have seen it
+                                   \* (kept ones, or ones created later and shown it in a replay) will not be
+                                   \* asked again, so the refusal itself is remembered
+                                   !.rejd = IF g.stage = "rcpt" /\ run.op = "rcpt" /\ g.arg = run.r
+                                            THEN @ \cup {g.arg} ELSE @]
                 /\ devs' = dv /\ cfg' = cf
                 /\ run' = [Idle EXCEPT !.st = "ret", !.op = run.op, !.r = run.r, !.res = "err"]
                 /\ UNCHANGED <<used, metaQ>>
@@ -363,7 +445,8 @@ Tgt(x) ==
 (* the destination block's recipient modifier rewrites the recipient - or fails (at most once) *)
 Mod ==
   /\ run.st = "mod"
-  /\ \E fail \in (IF cfg.fixed \/ cfg.mfail # {} THEN {run.r \in cfg.mfail} ELSE BOOLEAN) :
+  \* (the modifier's answer depends on the address: a repeated address gets the answer it got before)
+  /\ \E fail \in (IF cfg.fixed \/ cfg.mfail # {} \/ run.r \in drv.acc THEN {run.r \in cfg.mfail} ELSE BOOLEAN) :
        /\ cfg' = IF fail THEN [cfg EXCEPT !.mfail = @ \cup {run.r}] ELSE cfg
        /\ obs' = ObsMod(obs, cfg, RouteOf(cfg, run.r), run.r, IF fail THEN "err" ELSE "ok")
        /\ run' = IF fail THEN [Idle EXCEPT !.st = "ret", !.op = run.op, !.r = run.r, !.res = "err"]
@@ -379,7 +462,9 @@ Ret ==
          more == [drv EXCEPT !.i = @ + 1, !.acc = acc1]
          stop == IF acc1 = {} THEN [drv EXCEPT !.ph = "fin", !.fin = "abort", !.acc = acc1]
                  ELSE [drv EXCEPT !.ph = "body", !.acc = acc1]
-     IN CASE run.op = "start" -> drv' = IF ok THEN [drv EXCEPT !.ph = "rcpt", !.i = 1] ELSE [drv EXCEPT !.ph = "end"]
+     IN CASE run.op = "early" -> drv' = IF ok THEN [drv EXCEPT !.ph = IF Lazy THEN "start" ELSE "cfgS"]
+                                        ELSE [drv EXCEPT !.ph = "end"]       \* connection refused: no message
+          [] run.op = "start" -> drv' = IF ok THEN [drv EXCEPT !.ph = "rcpt", !.i = 1] ELSE [drv EXCEPT !.ph = "end"]
           [] run.op = "rcpt" ->
                IF drv.i < Len(cfg.route) THEN drv' = more
                ELSE \/ drv' = stop
@@ -431,6 +516,7 @@ End ==
 Next ==
   \/ CfgS \/ CfgF \/ Cmd \/ Ret \/ End \/ Relay \/ RemoteStart \/ RemoteRcpt
   \/ \E c \in Checks : CallDone(c)
+  \/ \E c \in Checks : ECallDone(c)
   \/ \E x \in run.tq : Tgt(x)
   \/ Mod
   \/ (drv.ph = "done" /\ ~Gen /\ UNCHANGED vars)
@@ -443,7 +529,9 @@ Spec == Init /\ [][Next]_vars
 (* ------------------------------------------------------------------------ *)
 NoViolation == obs.viol = {}
 NoDevs      == Devs = {} => devs = {}
-TypeOK == /\ run.st \in {"idle", "grp", "mod", "tgt", "ret"}
+TypeOK == /\ run.st \in {"idle", "grp", "egrp", "mod", "tgt", "ret"}
+          /\ cfg.everd \subseteq cfg.early /\ cfg.early \subseteq ChecksIn(cfg, "G")
+          /\ Len(cfg.dupof) = Len(cfg.route)
           /\ k.reg \subseteq Checks
           /\ \A t \in Targets : tg[t] \in {"none", "open", "committed", "relayed", "done"}
 \* every delivery that was opened is finished when the message is over
